@@ -3,6 +3,7 @@ Real qmail-queue under the LD_PRELOAD shim: reference run, crash sweep (SIGKILL 
 mutating libc call) x three disk variants, single-fault sweep over every call site, ordering
 assertions over the event log, envelope-grammar oracle."""
 import os
+import signal
 import re
 import shutil
 import time
@@ -447,6 +448,31 @@ def worker(bdir, tier, lo, hi, sweep_every):
                     and all(b"@" in r and not r.endswith(b"@") and b"%" not in r for r in recs):
                 handoff(res, R, sender, recs, site, wit)
             res.nontrivial("crash", label, k)
+        # (2b) "is killed": a catchable signal arriving just before every mutating call (TERM for every input; INT, HUP,
+        # ALRM - the program's own 24 h suicide -, PIPE and QUIT on a subset).  Whatever the handler or the default action
+        # does, the tree must be judged exactly like after a crash: fully queued, or not visible at all.
+        sigs = [signal.SIGTERM] + ([signal.SIGINT, signal.SIGHUP, signal.SIGALRM, signal.SIGPIPE, signal.SIGQUIT] if (tier == "thorough" or idx % 4 == 0) else [])
+        for e in mcalls:
+            k = e["n2"]
+            for sg in sigs:
+                wit = dict(wit0, signal=int(sg), before_call=k, call="%s %s" % (e["c"], e.get("path2", e.get("path", ""))))
+                st5, evs5 = R.run(msg, env, uid, plan="qmail-queue:%d:sig=%d" % (k, int(sg)), readchunk=rc)
+                res.evaluations += 1
+                if not any(x.get("inj") == "sig" for x in evs5):
+                    res.inconclusive.append("signal %d before call %d of %s did not fire" % (int(sg), k, label))
+                    continue
+                res.counters.inc("signal_points_fired")
+                ss5 = status_str(st5)
+                d5 = res.counters.setdefault("outcome_after_signal", {})
+                d5["%s:%s" % (sg.name, ss5)] = d5.get("%s:%s" % (sg.name, ss5), 0) + 1
+                t5 = R.tree()
+                dm5 = shim.DiskModel()
+                for x in evs5:
+                    dm5.feed(x)
+                where = (e["c"] + ("-" + e.get("path2", e.get("path", "")).split("/")[1] if "/" in e.get("path2", e.get("path", "")) else ""))
+                site = "signal-%s-before-%s" % (sg.name, where)
+                judge(res, t5, dm5, msg, sender, recs, uid, st5, site, wit, rng)
+                res.nontrivial("signal", label, k, int(sg))
         # (3) single-fault sweep over every call site (reads included) on a subset of inputs
         if idx % sweep_every == 0 or cls == "malformed" and idx % (sweep_every * 2) == 1:
             st3, evs3 = R.run(msg, env, uid, count="mro", readchunk=rc)
@@ -524,7 +550,7 @@ def main(tier):
     rule = ("inputs = message sizes straddling the 256/1024/2048-byte buffers x read chunkings (shim-forced), 0..5 recipients, "
             "address lengths 0..1004, every proper prefix and letter corruption of a valid envelope, 4 caller uids; per input: "
             "reference run, SIGKILL before every mutating libc call (x 3 disk variants judged on the real tree + recorded "
-            "write/fsync log), single injected fault per call site on every %dth input. Non-trivial = a crash point that fired, "
+            "write/fsync log), a catchable signal (TERM; INT/HUP/ALRM/PIPE/QUIT on every 4th input) before every mutating call, single injected fault per call site on every %dth input. Non-trivial = a crash point that fired, "
             "an injected fault that fired, or a reference run; distinct by (input, call index, action)." % sweep_every)
     return core.finish(PROP, tier, "fault_enumeration", res, rule, t0, assumptions=[
         "crash = SIGKILL before a libc call (LD_PRELOAD shim), i.e. crash points at call granularity",
